@@ -8,9 +8,15 @@ import NcVerif.Model.ReplyDoc
 namespace NcVerif.C06
 open NcVerif NcVerif.RpcError
 
-/-- `ok` iff the reply carries no rpc-error (a reply without `<ok/>`; with both the RFC leaves it open). -/
+/-- PARTIAL (full statement: for ANY reply). `ok` iff the reply carries no rpc-error — for a reply without an `<ok/>` child.
+    With one the statement is FALSE of model and code alike (witness below; replayed on the implementation on every run and
+    listed as known finding `C06:ok-element-hides-rpc-errors`). -/
 theorem ok_iff (errs : List Err) : ok ⟨false, errs⟩ = true ↔ errs = [] := by
   cases errs <;> simp [ok, errors]
+
+/-- The excluded point: a reply with `<ok/>` AND an rpc-error counts as ok, its error list is empty. -/
+example : ∃ r : Reply, r.errs ≠ [] ∧ ok r = true ∧ errors r = [] :=
+  ⟨⟨true, [{ severity := some "error".toList }]⟩, by decide, by decide, by decide⟩
 
 /-- The error list mirrors the rpc-error elements, in order. -/
 theorem errors_mirror (errs : List Err) : errors ⟨false, errs⟩ = errs := by
